@@ -1,6 +1,6 @@
 #!/bin/sh
 # Runs every registered check (tier $1 = quick|thorough) and validates the evidence files.
-cd /verif
+cd "$(dirname "$0")/.."
 TIER=${1:-quick}
 rc=0
 for p in $(python3 -c "import json; print(' '.join(c['property_id'] for c in json.load(open('MANIFEST.json'))['checks']))"); do
